@@ -43,9 +43,9 @@ SPEC = dict(
         "the rules a triggering event executes (C01) and their order (C10) are inputs of the model's addEvent",
     ],
     assumptions=[
-        "NewChildMonitor on a monitor is only called by an action executing under that monitor (what the ECAL addEvent builtin and the harness do); the method is public and unguarded in Go: a monitor reference used after its action returned is outside the model (the model's newChild is simply not enabled then; not exercised against the Go code)",
-        "the processor is running while the cascade is in flight: AddEvent on a stopping/stopped pool returns an error, the child monitor created for it is never finished and an enclosing wait never returns (func_provider.go addEvent path) — excluded, recorded as a limitation",
-        "'the wait does return' is proved as wait_returns_partial: every maximal run of engine steps from a state without fresh monitors has at most workLeft steps and ends with the waiter released and the handler run; weak fairness of the Go scheduler, terminating actions and pool liveness (C09) are assumed",
+        "NewChildMonitor on a monitor is only called by an action executing under that monitor (what the ECAL addEvent builtin and the harness do); the method is public and unguarded in Go: a monitor reference used after its action returned is outside the model (the model's newChild is not enabled then). Probed on every run (evidence limitation_probes.late_child.*): the late event runs, the message is posted a second time, the handler is not called again and the error report grows after the wait returned",
+        "the processor is running while the cascade is in flight: AddEvent on a stopping/stopped pool returns an error, the child monitor created for it is never finished and an enclosing wait never returns (func_provider.go addEvent path) — excluded; probed on every run (evidence limitation_probes.stopping_pool.*)",
+        "'the wait does return' is proved as wait_returns_fair over infinite executions of the shared system under explicit hypotheses: Exec.Fair (whenever an engine step is enabled an engine step is eventually taken: Go scheduler + pool liveness C09, assumed), Exec.AddsStopAt (the actions make finitely many NewChildMonitor/AddEvent calls), every created monitor handed to AddEvent, >= 1 worker",
         "a rule action calling AddEventAndWait occupies its worker while it waits: with workers <= simultaneous nested waits the processor deadlocks by design (not generated; limitation)",
         "ECAL: addEvent executed inside a for loop, inside a user function called by the sink, or inside a call argument runs with a FRESH instance state (rt_statements.go loopRuntime.Eval, rt_func.go, rt_identifier.go) and therefore starts a NEW root monitor: such events are not 'added under the monitor' of the sink's event; an enclosing addEventAndWait neither waits for them nor reports their errors (confirmed by the harness, modelled as detached cascades). The property as stated does not cover them; a user reading 'use addEvent for event cascades' may expect otherwise",
     ],
@@ -68,8 +68,14 @@ META = dict(
                 "quiescent => released and handler ran (wait_returns_partial; fairness assumed); conc_refines: with ONE observer table, "
                 "pending list and queue map every step projects to a step of the cascade's own system and leaves other roots' views "
                 "alone (negative witness: PostEvent without the source filter). Model tied to the Go code by 13 source facts, "
-                "differential runs and trace replay on every run."),
-    level_note=("Trusted: Lean kernel + propext/Classical.choice/Quot.sound; the go/ast fact extractor; the hook call sites; Go memory "
+                "differential runs and trace replay on every run. Liveness: wait_returns_fair — in every fair execution of the "
+                "shared system (Exec.Fair: an enabled engine step is eventually followed by an engine step; hypothesis) in which the "
+                "program stops adding work, a state is reached where every waiter is released with an exact report and every handler "
+                "ran once."),
+    level_note=("A change that moves the zero test of descendantFinished out of the critical section (read directly after Unlock, "
+                "before any hook point) cannot be forced by a hook-point scheduler; it is caught deterministically, hook-free, by the "
+                "regenerated source fact zeroTestInsideCriticalSection (go/ast, every run) and only probabilistically by traces/crashes. "
+                "Trusted: Lean kernel + propext/Classical.choice/Quot.sound; the go/ast fact extractor; the hook call sites; Go memory "
                 "model not modelled (-race run in the thorough tier); liveness only under the stated fairness assumption (full statement "
                 "in the comment at wait_returns_partial); NewChildMonitor outside an action, AddEvent on a stopping pool, nested waits "
                 "with too few workers and ECAL addEvent inside loops/functions (new root monitor, not waited for) are outside the "
@@ -149,6 +155,19 @@ def extract(ctx, binp):
         raise checklib.CheckError("source fact extraction failed: " + p.stdout[-500:])
 
 
+def probes(ctx, binp):
+    """what the real code does in the two situations the model declares outside the property (assumptions):
+    NewChildMonitor after the action returned, AddEvent on a stopping pool. Recorded, not compared."""
+    import subprocess
+    try:
+        p = subprocess.run([binp, "C02", "-tool", "probe"], env=dict(checklib.GOENV, VERIF_REPO=checklib.REPO), cwd=ctx.work,
+                           stdout=subprocess.PIPE, stderr=subprocess.DEVNULL, text=True, timeout=60)
+        line = [l for l in p.stdout.splitlines() if l.startswith("{")]
+        return json.loads(line[-1]) if line else {"error": "no output, rc %d" % p.returncode}
+    except Exception as e:  # a probe must never fail the check
+        return {"error": str(e)[:200]}
+
+
 def read_facts():
     import re
     src = open(GEN).read() if os.path.exists(GEN) else ""
@@ -180,6 +199,7 @@ def run(ctx):
     if proof_broken:
         ctx.log("LEAN FAILURES:", lres["failures"])
     cov["source_facts"] = read_facts()
+    cov["limitation_probes"] = probes(ctx, binp)
     shards = SPEC["shards"]
     cases, gores, stats, infos = checklib.run_cases(ctx, binp, "C02", shards=shards, budget_s=3000 if thorough else 600)
     crashes = sum(len(i["crashes"]) for i in infos.values())
@@ -202,24 +222,25 @@ def run(ctx):
         if idx is not None and "C02: " not in head:
             gores[idx] = "CRASH " + full[:300]
     kept, hangs = 0, []
+    for f in glob.glob(os.path.join(ctx.work, "c02.stderr.*")):
+        txt = open(f, errors="replace").read()
+        for m in re.finditer(r"(?m)^C02-HANG .*$", txt):
+            k = txt.rfind("CASE ", 0, m.start())
+            payload = txt[k + 5:txt.find("\n", k)] if k >= 0 else ""
+            idx = next((i for i in cases if cases[i] == payload), None)
+            if idx is not None:
+                hangs.append((idx, " ".join(m.group(0).split())))
     for info in infos.values():
         for c in info["crashes"]:
-            o = " ".join(c.get("output", "").split())
-            ctx.log(f"process death at case {c['idx']} (rc {c.get('rc')}): {o[:400]}")
-            forgiven = not gores.get(c["idx"], "").startswith("CRASH")
-            if "panic:" in o or "fatal error:" in o:
-                if forgiven:
-                    gores[c["idx"]] = "CRASH " + o[:300]
-                    kept += 1
-            elif "C02-HANG" in o:
-                hangs.append((c["idx"], o, forgiven))
+            ctx.log(f"process death at case {c['idx']} (rc {c.get('rc')})")
     # a wait that did not return: believed when it also hangs alone, or when it is not the only one of the run
     # (one unreproduced stall of a whole process under load is recorded, not reported)
-    for idx, o, forgiven in hangs:
-        if forgiven and len(hangs) >= 2:
+    for idx, o in hangs:
+        forgiven = not gores.get(idx, "").startswith("CRASH")
+        if not forgiven or len(hangs) >= 2:
             gores[idx] = "CRASH " + o[:300]
-            kept += 1
-        elif forgiven:
+            kept += forgiven
+        else:
             ctx.notes.append("one wait was declared stuck under load and returned when the case was run alone: " + o[:300])
     if kept:
         ctx.notes.append(f"{kept} process deaths were not reproduced when the case was run alone; they are still reported")
